@@ -589,6 +589,9 @@ def run(prog, rep, tier, repo):
                     probs.append('the row zip stops after %s columns, the result has %s' % (cm, want[1]))
             elif not (cl in ('all', 'row-of-out') or (isinstance(cl, Dim) and cls[cl.sym] == cls[want[1]])):
                 probs.append('the column loop runs over %s, not over the %s columns of the result' % (cl, want[1]))
+            ck_ = ac.get('chunk')
+            if ck_ is not None and not (isinstance(ck_, Dim) and cls[ck_.sym] == cls[want[1]]):
+                probs.append('the result is walked in pieces of %s elements, but its rows have %s elements: the pieces are not the rows' % (ck_, want[1]))
             st_ = ac.get('stride')
             if st_ is not None and not (isinstance(st_, Dim) and cls[st_.sym] == cls[want[1]]):
                 probs.append('flat write uses row stride %s but the result has %s columns' % (st_, want[1]))
